@@ -1,6 +1,6 @@
 /* C13 - multi-threaded stress driver (real threads, real sockets on loopback, real public API).
  *
- *   h_lock_stress <seconds> <workers 2..8> <seed>
+ *   h_lock_stress <seconds> <workers 2..8> <seed> [profile: 1 = mostly short-lived sessions]
  *
  * One context acts as server and client.  One thread sits in coap_io_process(); <workers> threads
  * issue, at random: CON/NON requests (send), coap_resource_notify_observers (notify), client
@@ -41,6 +41,7 @@ static coap_address_t srv_addr;
 static coap_resource_t *res_static, *res_obs, *res_async;
 static atomic_int stop_workers, stop_io;
 static int nworkers;
+static int profile;              /* 1: mostly short-lived sessions with traffic in flight */
 
 typedef struct {
   pthread_t th;
@@ -222,6 +223,23 @@ static void op_session(worker_t *w) {
   atomic_fetch_add(&n_sess, 1);
 }
 
+/* a short-lived client session with traffic in flight when the application drops its reference:
+   the reply makes the socket readable around the time the session is freed */
+static void op_session_send(worker_t *w) {
+  coap_session_t *s = coap_new_client_session(ctx, NULL, &srv_addr, COAP_PROTO_UDP);
+  if (!s) return;
+  coap_pdu_t *p = coap_new_pdu(COAP_MESSAGE_NON, COAP_REQUEST_CODE_GET, s);
+  if (p) {
+    uint8_t tok[2] = {0x5e, (uint8_t)w->id};
+    coap_add_token(p, 2, tok);
+    coap_add_option(p, COAP_OPTION_URI_PATH, 2, (const uint8_t *)"r0");
+    if (coap_send(s, p) != COAP_INVALID_MID) atomic_fetch_add(&n_sent, 1);
+  }
+  usleep(rnd(&w->seed) % 400);
+  coap_session_release(s);
+  atomic_fetch_add(&n_sess, 1);
+}
+
 static void op_resource(worker_t *w, unsigned k) {
   char name[32];
   snprintf(name, sizeof(name), "t%d-%u", w->id, k & 3);
@@ -282,7 +300,8 @@ static void *worker_main(void *arg) {
     else if (x < 40) { atomic_store(&w->what, "send-non"); op_send(w, "r0", 0, COAP_REQUEST_CODE_GET); }
     else if (x < 48) { atomic_store(&w->what, "send-put"); op_send(w, "r0", 1, COAP_REQUEST_CODE_PUT); }
     else if (x < 60) { atomic_store(&w->what, "notify"); coap_resource_notify_observers(res_obs, NULL); atomic_fetch_add(&n_notify, 1); }
-    else if (x < 70) { atomic_store(&w->what, "session"); op_session(w); }
+    else if (x < 64) { atomic_store(&w->what, "session"); op_session(w); }
+    else if (x < 70 || profile == 1) { atomic_store(&w->what, "session-send-release"); op_session_send(w); }
     else if (x < 80) { atomic_store(&w->what, "resource"); op_resource(w, k); }
     else if (x < 88) { atomic_store(&w->what, "cache"); op_cache(w); }
     else if (x < 93) { atomic_store(&w->what, "ping"); if (w->ping_sess) coap_session_send_ping(w->ping_sess); }
@@ -420,6 +439,7 @@ int main(int argc, char **argv) {
   double secs = argc > 1 ? atof(argv[1]) : 5.0;
   nworkers = argc > 2 ? atoi(argv[2]) : 4;
   unsigned seed = argc > 3 ? (unsigned)atoi(argv[3]) : 1;
+  profile = argc > 4 ? atoi(argv[4]) : 0;
   if (nworkers < 1) nworkers = 1;
   if (nworkers > MAXW) nworkers = MAXW;
   setvbuf(stdout, NULL, _IOLBF, 0);
